@@ -46,6 +46,13 @@ UNIT = dict(
                       ("C14,C13:sanitize_identity_on_clean_keys",
                        "all_allowed(key@) && !all_chars(key@, '_') && !all_chars(key@, '.') ==> ret@ == key@")]),
         dict(kind="struct", file=PATHS, struct="WalPathManager"),
+        # the prelude's contract of wal_data_dir() (an arbitrary directory, read on every call) is tied to the function's exact text
+        dict(kind="stub", sig="pub fn wal_data_dir_reads_the_environment_on_every_call() -> (r: bool)",
+             anchor=dict(file="src/wal/config.rs", path="fn wal_data_dir", body='''
+    std::env::var_os("WALRUS_DATA_DIR")
+        .map(PathBuf::from)
+        .unwrap_or_else(|| PathBuf::from("wal_files"))
+''')),
         dict(kind="fn", file=PATHS, path="impl WalPathManager / fn for_key", rules=R9_PUSH, proof_prologue="broadcast use lemma_push_inside;",
              ensures=[("C14,C13:for_key_root_strictly_inside", "strictly_inside(path_view(&ret.root), data_dir_view())"),
                       ("C14,C13:for_key_root_is_one_level", "path_view(&ret.root).len() == data_dir_view().len() + 1")]),
